@@ -316,6 +316,34 @@ void __gmpz_divexact(mpz_m *r, mpz_m *n, mpz_m *d) {
   /* GMP: undefined result unless d divides n; the model returns the truncated quotient */
   gz_put(r, a / b);
 }
+/* further mpz/mpq entry points a change of the code under test may plausibly start to use (same exact bounded-integer model) */
+void __gmpz_add(mpz_m *r, mpz_m *a, mpz_m *b) { gz_put(r, (gz2_t)gz_get(a) + (gz2_t)gz_get(b)); }
+void __gmpz_sub(mpz_m *r, mpz_m *a, mpz_m *b) { gz_put(r, (gz2_t)gz_get(a) - (gz2_t)gz_get(b)); }
+void __gmpz_mul(mpz_m *r, mpz_m *a, mpz_m *b) { gz_t x = gz_get(a), y = gz_get(b); gz_put(r, GZ_MUL(x, y)); }
+void __gmpz_add_ui(mpz_m *r, mpz_m *a, uint64_t v) { gz_put(r, (gz2_t)gz_get(a) + gz_zx64(v)); }
+void __gmpz_sub_ui(mpz_m *r, mpz_m *a, uint64_t v) { gz_put(r, (gz2_t)gz_get(a) - gz_zx64(v)); }
+void __gmpz_ui_sub(mpz_m *r, uint64_t v, mpz_m *a) { gz_put(r, gz_zx64(v) - (gz2_t)gz_get(a)); }
+void __gmpz_mul_si(mpz_m *r, mpz_m *a, uint64_t v) { gz_t x = gz_get(a), y = (gz_t)gz_sx64(v); gz_put(r, GZ_MUL(x, y)); }
+void __gmpz_mul_ui(mpz_m *r, mpz_m *a, uint64_t v) { gz_t x = gz_get(a), y = (gz_t)gz_zx64(v); gz_put(r, GZ_MUL(x, y)); }
+void __gmpz_swap(mpz_m *a, mpz_m *b) { gz_t x = gz_get(a), y = gz_get(b); gz_put(a, y); gz_put(b, x); }
+static gz_t gz_rem(gz_t a, gz_t b, int mode) {   /* mode 0: trunc, 1: floor, 2: ceil */
+  __CPROVER_assert(b != 0, "gmp: division by zero");
+  __CPROVER_assume(b != 0);
+  gz_t q = a / b;
+  if (mode == 1 && a % b != 0 && ((a < 0) != (b < 0))) q = q - 1;
+  if (mode == 2 && a % b != 0 && ((a < 0) == (b < 0))) q = q + 1;
+  return (gz_t)((gz2_t)a - (gz2_t)q * (gz2_t)b);
+}
+void __gmpz_tdiv_r(mpz_m *r, mpz_m *n, mpz_m *d) { gz_put(r, gz_rem(gz_get(n), gz_get(d), 0)); }
+void __gmpz_fdiv_r(mpz_m *r, mpz_m *n, mpz_m *d) { gz_put(r, gz_rem(gz_get(n), gz_get(d), 1)); }
+void __gmpz_cdiv_r(mpz_m *r, mpz_m *n, mpz_m *d) { gz_put(r, gz_rem(gz_get(n), gz_get(d), 2)); }
+void __gmpz_mod(mpz_m *r, mpz_m *n, mpz_m *d) { gz_t b = gz_get(d); gz_put(r, gz_rem(gz_get(n), b < 0 ? -b : b, 1)); }
+void __gmpz_tdiv_qr(mpz_m *q, mpz_m *r, mpz_m *n, mpz_m *d) { gz_t a = gz_get(n), b = gz_get(d); gz_t m = gz_rem(a, b, 0); gz_put(q, (a - m) / b); gz_put(r, m); }
+void __gmpz_fdiv_qr(mpz_m *q, mpz_m *r, mpz_m *n, mpz_m *d) { gz_t a = gz_get(n), b = gz_get(d); gz_t m = gz_rem(a, b, 1); gz_put(q, (a - m) / b); gz_put(r, m); }
+void __gmpz_cdiv_qr(mpz_m *q, mpz_m *r, mpz_m *n, mpz_m *d) { gz_t a = gz_get(n), b = gz_get(d); gz_t m = gz_rem(a, b, 2); gz_put(q, (a - m) / b); gz_put(r, m); }
+void __gmpq_abs(mpq_m *r, mpq_m *a) { gz_t n = gz_get(&a->f0), d = gz_get(&a->f1); gz_put(&r->f0, n < 0 ? -(gz2_t)n : (gz2_t)n); gz_put(&r->f1, d); }
+void __gmpq_set_z(mpq_m *q, mpz_m *z) { gz_put(&q->f0, gz_get(z)); gz_put(&q->f1, 1); }
+void __gmpq_swap(mpq_m *a, mpq_m *b) { gz_t an = gz_get(&a->f0), ad = gz_get(&a->f1), bn = gz_get(&b->f0), bd = gz_get(&b->f1); gz_put(&a->f0, bn); gz_put(&a->f1, bd); gz_put(&b->f0, an); gz_put(&b->f1, ad); }
 /* mpq_get_d: nearest-toward-zero conversion of n/d; only integral values are modelled exactly */
 double __gmpq_get_d(mpq_m *q) {
   gz_t n = gz_get(&q->f0), d = gz_get(&q->f1);
